@@ -195,3 +195,43 @@ def main_wrapper(fn):
         traceback.print_exc()
         sys.exit(2)
     sys.exit(rc)
+
+
+def run_cases(ctx, name, cases, impl_factory, oracle=None, nontrivial=None, signature=None):
+    """Run op-line cases on a fresh implementation adapter each, evaluate the
+    property oracle on the implementation's own trace, then replay the same
+    lines on the compiled Lean model and diff."""
+    from . import lean as _lean
+    impl_lines = []
+    all_lines = []
+    for case in cases:
+        impl = impl_factory()
+        out = [impl.step(l) for l in case]
+        impl_lines += out
+        all_lines += case
+        nt = nontrivial(case, out) if nontrivial else True
+        ctx.count(tuple(case), nt)
+        if oracle is not None:
+            p = oracle(case, out)
+            if p:
+                sig = {"oracle": name}
+                if signature:
+                    sig.update(signature(case, out, p))
+                ctx.witness(p, {"ops": case, "impl_output": out}, sig)
+    model_lines = _lean.run_driver(all_lines)
+    mism = diff_streams(ctx, name, cases, impl_lines, model_lines)
+    for m in mism[:3]:
+        if m[0] >= 0:
+            ci, oi, il, ml = m
+            ctx.disagreement(name, cases[ci][: oi + 1], ml, il, oi)
+    ctx.cov["traces_validated_against_impl"] += len(cases)
+    return len(mism)
+
+
+def parse_kv(s):
+    d = {}
+    for tok in s.split():
+        if "=" in tok:
+            k, v = tok.split("=", 1)
+            d[k] = v
+    return d
